@@ -45,7 +45,7 @@ def run(ctx):
             break
     # identity corner cases, forced: a path whose file is replaced between two runs of one group so that exactly one component of
     # (device, inode, mtime) - the inode - or only the mtime differs, with the size unchanged
-    for kind in ("renamed-over", "same-size-rewrite"):
+    for kind in ("renamed-over", "same-size-rewrite", "same-second-rewrite"):
         if ctx.violations:
             break
         with slevel.Sandbox("c01") as sb:
@@ -56,6 +56,8 @@ def run(ctx):
             p = os.path.join(H.w.src, H.w.items[0], "identity.conf")
             if kind == "renamed-over":
                 H.w.rename_over(p)
+            elif kind == "same-second-rewrite":
+                H.w.rewrite_same_second(p)
             else:
                 st = os.lstat(p)
                 H.w.write_file(p, b"colour=teal-2\n" * 5, mode=stat.S_IMODE(st.st_mode), owner=(st.st_uid, st.st_gid))
